@@ -152,6 +152,16 @@ pub fn gen_sample_set(rng: &mut Rng, o: &GenOpts) -> SampleSet {
                 // identical copy
                 seq = base[bi].clone();
             }
+            if s > 0 && base[bi].len() > 4 && rng.chance(1, 8) {
+                // exact copy of the base contig with one end cut off (a fragment that is a strict
+                // prefix / suffix of what earlier samples stored), sometimes inverted
+                let l = base[bi].len();
+                let cut = rng.range((l / 10).max(1) as u64, (l - 1) as u64) as usize;
+                seq = if rng.chance(1, 2) { base[bi][..cut].to_vec() } else { base[bi][l - cut..].to_vec() };
+                if o.revcomp && rng.chance(1, 3) {
+                    seq = revcomp_letters(&seq);
+                }
+            }
             let ctg = format!("ctg{}", ci);
             let mut header = if o.pansn { format!("{}#1#{}", name, ctg) } else { format!("{}_{}", name, ctg) };
             if o.descriptions && rng.chance(1, 2) {
